@@ -97,6 +97,11 @@ namespace cgi {
 				}
 
 				if(read_length_ >= content_length_) {
+					if(!body_.empty()) {
+						// the STDIN record carries more data than CONTENT_LENGTH announced
+						socket_.get_io_service().post(h,booster::system::error_code(errc::protocol_violation,cppcms_category),s);
+						return;
+					}
 					async_read_record(mfunc_to_event_handler(
 						&fastcgi::on_read_stdin_eof_expected,
 						self(),
